@@ -152,9 +152,14 @@ class Replayer:
         if perm // 100 == 3:
             self.options["enable_data_attributes"] = True
         self.compile_error = None
+        self.libs = []
         try:
             self.t = PageTemplate(self.c.source, on_error_handler=self.rec.handler, **self.options)
             self.t.cook_check()
+            for src in self.c.srcs[1:]:
+                lt = PageTemplate(src, on_error_handler=self.rec.handler, **self.options)
+                lt.cook_check()
+                self.libs.append(lt)
         except Exception as e:      # compile-time failure
             self.t = None
             self.compile_error = e
@@ -166,7 +171,9 @@ class Replayer:
                                                                  str(self.compile_error).splitlines()[0:1])
         r = self.rec
         r.load(rec["log"])
-        kw = {"e": r.e, "snap": r.snap}
+        kw = {"e": r.e, "snap": r.snap, "T0": self.t}
+        for n, lt in enumerate(self.libs, 1):
+            kw["T%d" % n] = lt
         for n, v in self.p.get("init", {}).items():
             if v["t"] != "undef":
                 kw[n] = self.vf.make(v)
@@ -257,7 +264,7 @@ def _check_failure(self, rec, err):
             if not recs:
                 return "message carries no expression/location record: %r" % msg[:200]
             ex, fn, ln, col = recs[0]
-            line, column = self.c.linecol(info["offset"])
+            line, column = self.c.linecol(info["offset"], info.get("tmpl", 0))
             # the named text is the failing expression or, for prefixed / piped
             # expressions, the part of it that failed -- at the position where
             # exactly that text stands
@@ -266,16 +273,50 @@ def _check_failure(self, rec, err):
             for txt in {info["text"], src_text}:
                 start = txt.find(ex)
                 while ex and start >= 0:
-                    cands.append(self.c.linecol(info["offset"] + start))
+                    cands.append(self.c.linecol(info["offset"] + start, info.get("tmpl", 0)))
                     start = txt.find(ex, start + 1)
+            tag = ""
+            if site["i"] in self.filler_items():
+                # failure inside a slot filler (recorded deviation of C12, if listed)
+                tag = "KNOWN[FillerErrorMisattributed] "
             if not cands:
-                return "message names expression %r, failing expression is %r" % (ex, info["text"])
+                return tag + "message names expression %r, failing expression is %r" % (ex, info["text"])
             if (int(ln), int(col)) not in cands:
-                return "message locates %r at (%s, %s), it stands at %s" % (ex, ln, col, cands)
+                return tag + "message locates %r at (%s, %s), it stands at %s" % (ex, ln, col, cands)
+            # the enclosing macro call sites, innermost to outermost
+            want_sites = [s for s in rec["exc"].get("sites", [])]
+            got_sites = recs[1:]
+            if len(got_sites) != len(want_sites):
+                return tag + "message lists %d enclosing call sites %s, the machine has %d" % (
+                    len(got_sites), [g[0] for g in got_sites], len(want_sites))
+            for g, w in zip(got_sites, want_sites):
+                winfo = self.c.sites.get((w["i"], w["s"], w["j"]))
+                if winfo is None:
+                    continue
+                wl, wc = self.c.linecol(winfo["offset"], winfo.get("tmpl", 0))
+                if g[0] != winfo["text"] or (int(g[2]), int(g[3])) != (wl, wc):
+                    return tag + "call site %r at (%s, %s), expected %r at (%d, %d)" % (g[0], g[2], g[3], winfo["text"], wl, wc)
     return None
 
 
+def _filler_items(self):
+    if not hasattr(self, "_fi"):
+        fi = set()
+        depth = []
+        for i, it in enumerate(self.p["items"], 1):
+            if it["k"] == "open":
+                depth.append(bool(it.get("fs")) or (bool(depth) and depth[-1]))
+            elif it["k"] == "close":
+                depth.pop()
+                continue
+            if depth and depth[-1]:
+                fi.add(i)
+        self._fi = fi
+    return self._fi
+
+
 Replayer.check_failure = _check_failure
+Replayer.filler_items = _filler_items
 
 
 def _strip(v):
